@@ -22,6 +22,15 @@ CHECKS = {
             "all n<=10 in int/list/ndarray/label forms. Oracles: Hermitian idempotent of binomial rank with W_pi P = [sgn pi] P for every "
             "reference permutation operator, orthogonality, p=2 completeness, isometry forms; (-1)^inversions; set(itertools.permutations); (n-1)!! distinct matchings.",
             "float comparisons at 1e-9 on matrices with entries k/p!; reference permutation operators from mc.ref.tensor_index"),
+    "C19": ("model_checking",
+            "explicit-state exploration of call histories on the real generators (owned entropy) + full-product validity enumeration",
+            "Reproducibility is decided by exhaustive exploration of call histories (depth 2 quick / 3 thorough over a 57-event menu: "
+            "global seed/draw, unseeded and seeded calls of all 9 generators x 2 argument tuples x 2 seeds) with OS entropy owned by an "
+            "entropy tape: every seeded call must return bitwise the canonical object, must not read numpy's global RNG nor OS entropy, and "
+            "different seeds must differ. Validity is a full product generator x dims 1..6 x options x seeds x {seeded, unseeded}. "
+            "Measurements: all spanning sub-ensembles (2..4 states, d=2,3) x priors x forms for PGM/PBM with a certified P_opt bracket; "
+            "measure on all (state, Kraus set) pairs; is_povm on margin perturbations.",
+            "numpy.random.bit_generator.randbits replaced by the harness (no source hook); P_opt bracket from own SDP + eigvalsh arithmetic; histories beyond depth 3 not explored"),
 }
 
 PENDING_REASON = "check not built yet in this session (work in progress; see DESIGN.md section 7 for the planned exploration)"
